@@ -18,6 +18,7 @@ import Anko.Gen.EnvLocks
 import Anko.Model.Lts
 import Anko.Model.EnvApi
 import Anko.Props.Tie.EnvFlow
+import Anko.Props.Tie.Inventory
 
 namespace Anko.C13
 open Anko
@@ -225,5 +226,14 @@ this property then searches for a failing input - so a change that breaks this p
 property is not overlooked. -/
 /-- the environment API (env/*.go) -/
 theorem source_tie_EnvFlow : Gen.EnvFlow.leaves = Tables.envFlow := Tie.envFlow
+
+
+/-! ### Declaration inventory
+
+Nothing was added to the packages this property is anchored in: their top-level declarations (functions, methods, variables, constants, types with
+the fields of struct types), regenerated from /repo on this run, are the audited ones (Props/Tie/Inventory). A helper, a package-level table or a
+file added there - code no flow table can pin - breaks the tie by name and makes this property's check search for a failing input. -/
+/-- env/ -/
+theorem declarations_of_Env_are_the_audited_ones : Tie.ofPkg "env" Gen.Inventory.decls = Tie.ofPkg "env" Tables.inventory := Tie.inventoryEnv
 
 end Anko.C13
